@@ -148,6 +148,7 @@ class ArmWalker:
         self.ret_stack = []                 # return classes collected while inlining
         self.param_exprs = []               # per inlined frame: parameter -> argument expression
         self.frames = []                    # (inlined callee, its aliases when it returned)
+        self.guard_neg = {}                 # guard text -> text of the complementary guard
 
     # -- classification of container expressions ------------------------------------------------
     def cls_of(self, e, depth=0):
@@ -407,6 +408,8 @@ class ArmWalker:
                         deads.append(True)
                     else:
                         self.guards.append((norm_cond(cond, pol, self), cond, pol))
+                        self.guard_neg[norm_cond(cond, pol, self)] = norm_cond(cond, not pol, self)
+                        self.guard_neg[norm_cond(cond, not pol, self)] = norm_cond(cond, pol, self)
                         saved = self.dead
                         self.stmt(br)
                         deads.append(self.dead)
@@ -758,11 +761,27 @@ def entry_kind(e, w):
 
 
 def norm_cond(cond, pol, w):
-    """normalised text of a validation condition: locals replaced by their class"""
-    def r(n):
+    """normalised text of a validation condition: locals replaced by their class.  The text is
+    that of the outcome that is taken (pol False: of the negation), with negations pushed inward
+    - `if (a == b) {...} else throw` reads `(a != b)` like `if (a != b) throw`."""
+    flip = {'==': '!=', '!=': '==', '<': '>=', '>=': '<', '>': '<=', '<=': '>'}
+
+    def r(n, neg=False):
         if n is None:
             return '?'
         n = strip_casts(n)
+        if n.kind == 'UnaryOperator' and n.op == '!':
+            return r(n.kids[0], not neg)
+        if n.kind == 'BinaryOperator' and n.op in ('&&', '||'):
+            op = n.op if not neg else ('||' if n.op == '&&' else '&&')
+            return '(%s %s %s)' % (r(n.kids[0], neg), op, r(n.kids[1], neg))
+        if n.kind == 'BinaryOperator' and n.op in flip:
+            return '(%s %s %s)' % (r(n.kids[0]), flip[n.op] if neg else n.op, r(n.kids[1]))
+        if n.kind in CALL_KINDS and n.callee_name() in ('operator!=', 'operator==') and len(n.kids) == 3:
+            op = n.callee_name()[8:]
+            return '(%s %s %s)' % (r(n.kids[1]), flip[op] if neg else op, r(n.kids[2]))
+        if neg:
+            return '!' + r(n)
         if n.kind == 'BinaryOperator':
             return '(%s %s %s)' % (r(n.kids[0]), n.op, r(n.kids[1]))
         if n.kind == 'UnaryOperator':
@@ -775,9 +794,6 @@ def norm_cond(cond, pol, w):
                 b = n.call_base()
                 return '%s(%s%s)' % (nm, w.cls_of(b) if b is not None else '?',
                                      ''.join(', ' + w.cls_of(a) for a in n.call_args()))
-            if nm in ('operator!=', 'operator=='):
-                a = n.kids[1:]
-                return '(%s %s %s)' % (r(a[0]), nm[8:], r(a[1]))
             if nm == 'DictKeysEqual':
                 return 'DictKeysEqual(%s)' % ', '.join(w.cls_of(a) for a in n.call_args())
             if nm == 'operator bool':
@@ -798,8 +814,7 @@ def norm_cond(cond, pol, w):
                 return c
             return last
         return n.kind
-    t = r(cond)
-    return t if pol else 'not ' + t
+    return r(cond, not pol)
 
 
 # ---------------------------------------------------------------------------------------------
@@ -883,9 +898,8 @@ class Descriptor:
             return True
 
         def negs(t):
-            if t.startswith('not '):
-                return {t[4:]}
-            return {'not ' + t, 'not (%s)' % t}
+            c = self.w.guard_neg.get(t)
+            return {c} if c is not None else set()
         singles = {g[0] for g in gs if len(g) == 1}
         return any(negs(g) & singles for g in singles)
 
